@@ -87,10 +87,23 @@ class World:
     # ---------------- concretisation
     def concretise(self, model):
         """{sym name: python value} under a z3 model (None model: all zeros)"""
-        out = {}
+        out = Values()
         for nm, ty, v in self.syms:
             out[nm] = evalnum(model, v) if model is not None else 0
+        out.model = model
         return out
+
+
+class Values(dict):
+    """concrete values of the symbolic inputs; keeps the z3 model so that derived cell terms can be evaluated too"""
+    model = None
+    def of(self, term):
+        nm = str(term)
+        if nm in self: return self[nm]
+        if self.model is not None: return evalnum(self.model, term)
+        import z3 as _z
+        subs = []
+        return tonum(_z.simplify(term))
 
 
 def evalnum(model, v, prec=30):
@@ -146,9 +159,7 @@ class NativeWorld:
             if isinstance(val, (llsym.FnPtr, llsym.IntPtr)): raise ValueError('function/int pointer cell needs custom native value')
             o, off = val; return self.addr(o, off)
         if z3.is_expr(val):
-            nm = str(val)
-            if nm in self.values: v = self.values[nm]
-            else: v = tonum(z3.simplify(val))
+            v = self.values.of(val) if isinstance(self.values, Values) else (self.values[str(val)] if str(val) in self.values else tonum(z3.simplify(val)))
         else: v = val
         return v
     def write(self, o, off, ty, v):
@@ -396,7 +407,7 @@ def plain_world(world, values):
             if ty == 'ptr':
                 v = None if val is None else [val[0].name, val[1]]
             elif z3.is_expr(val):
-                nm = str(val); v = values[nm] if nm in values else tonum(z3.simplify(val))
+                v = values.of(val) if isinstance(values, Values) else (values[str(val)] if str(val) in values else tonum(z3.simplify(val)))
             else: v = val
             cells.append([off, ty, v])
         size = o.size
